@@ -76,6 +76,11 @@ def items(tier, seed):
                     continue          # the heaviest single item (4 min); thorough tier only
                 out.append(("posglob-air-n%02d-%s-F%d" % (n, sg, F), {"n": n, "sign": sg, "kind": "air", "F": F,
                                                                       "weight": 60 if n >= 57 else 20}))
+    # outside the time windows: a reference older than 180 s / a pair older than 10 s must NOT be used
+    for n in ([30, 58] if tier == "quick" else [1, 2, 17, 30, 45, 58, 59]):
+        out.append(("posref-late-air-n%02d" % n, {"n": n, "sign": "N", "kind": "air", "F": n % 2, "late": True, "weight": 5}))
+        out.append(("posref-late-surf-n%02d" % n, {"n": n, "sign": "S", "kind": "surf", "F": (n + 1) % 2, "late": True, "weight": 5}))
+        out.append(("posglob-late-air-n%02d" % n, {"n": n, "sign": "N", "kind": "air", "F": n % 2, "late": True, "weight": 20}))
     return out
 
 
@@ -465,7 +470,12 @@ def run_posref(item, pm):
     rec, ex = sym_state(item, pm, "pos", "vN", t, other_F=1 - F)
     enc = S.Enc(lat, lon, F, n, zone, "p")
     item.real_inputs += [ex["tpos"], ex["lat"], ex["lon"], ex["t"], ex["to"]]
-    item.assume(L.adsb_df(fr), t >= 0, t <= tnow, tnow - t <= 5, ex["t"] <= t, t - ex["tpos"] < 180,
+    late = prm.get("late", False)
+    if late:
+        item.assume(t - ex["tpos"] >= 180, t - ex["tpos"] <= 2000, t - ex["to"] >= 10)
+    else:
+        item.assume(t - ex["tpos"] < 180)
+    item.assume(L.adsb_df(fr), t >= 0, t <= tnow, tnow - t <= 5, ex["t"] <= t,
                 lat >= -90, lat <= 90, lon >= -180, lon < 180, plat >= -90, plat <= 90, plon >= -180, plon < 180,
                 *enc.cons, S.in_band(enc.rlat, n, sign), fr["LAT"].var == enc.YZ, fr["LON"].var == enc.XZ,
                 # the stored position is within 0.001 deg of the true position at tpos (lon modulo 360)
@@ -475,7 +485,8 @@ def run_posref(item, pm):
         item.assume(enc.rlat <= 89, enc.rlat >= -89)
     # surface frames poleward of 88.5 deg: 30 NM of motion spans more than half a 90-degree longitude zone, no decoder
     # can disambiguate there (stated under 'outside')
-    motion_box(item, plat, plon, lat, lon, t - ex["tpos"], 180, n, latcap=Fraction(177, 2) if kind == "surf" else None)
+    motion_box(item, plat, plon, lat, lon, t - ex["tpos"], 2000 if late else 180, n,
+               latcap=Fraction(177, 2) if kind == "surf" else None)
 
     def run():
         d = mk_decoder(pm, {key_a(): dict(rec)})
@@ -520,12 +531,17 @@ def run_posglob(item, pm):
     st = ex["stored"]
     enc = S.Enc(lat, lon, F, n, 360, "p")
     eno = S.Enc(olat, olon, 1 - F, n, 360, "o")
-    item.assume(L.adsb_df(fr), t >= 0, t <= tnow, tnow - t <= 5, ex["t"] <= t, t - ex["to"] < 10,
+    late = prm.get("late", False)
+    if late:
+        item.assume(t - ex["to"] >= 10, t - ex["to"] <= 120)
+    else:
+        item.assume(t - ex["to"] < 10)
+    item.assume(L.adsb_df(fr), t >= 0, t <= tnow, tnow - t <= 5, ex["t"] <= t,
                 st["TC"].int() >= 9,
                 lat >= -90, lat <= 90, lon >= -180, lon < 180, olat >= -90, olat <= 90, olon >= -180, olon < 180,
                 *enc.cons, *eno.cons, S.in_band(enc.rlat, n, sign), S.in_band(eno.rlat, n, sign),
                 fr["LAT"].var == enc.YZ, fr["LON"].var == enc.XZ, st["LAT"].var == eno.YZ, st["LON"].var == eno.XZ)
-    motion_box(item, olat, olon, lat, lon, t - ex["to"], 10, n)
+    motion_box(item, olat, olon, lat, lon, t - ex["to"], 120 if late else 10, n)
 
     def run():
         d = mk_decoder(pm, {key_a(): dict(rec)})
